@@ -285,11 +285,14 @@ class ImplSession:
                 out = []
             elif tag == 6:
                 if len(ev) > 2 and ev[2]:
-                    allowed = set(ev[2][0])
-                    objs = self.objs
-                    o = d.create_or_get_observer(
-                        observer_classes()[ev[1]],
-                        condition=lambda ob: any(ob is objs[a] for a in allowed if a < len(objs)))
+                    # one predicate OBJECT per distinct allowed-list (the way a user passes a module-level
+                    # function): asking twice with the same predicate must still look at the CURRENT subscribers
+                    key_ = tuple(sorted(set(ev[2][0])))
+                    conds = self.__dict__.setdefault("_conds", {})
+                    if key_ not in conds:
+                        conds[key_] = (lambda allowed, objs: lambda ob: any(
+                            ob is objs[a] for a in allowed if a < len(objs)))(set(key_), self.objs)
+                    o = d.create_or_get_observer(observer_classes()[ev[1]], condition=conds[key_])
                 else:
                     o = d.create_or_get_observer(observer_classes()[ev[1]])
                 idx = [i for i, x in enumerate(self.objs) if x is o]
